@@ -80,6 +80,42 @@ def stage_build(prop, ctx):
             ctx.extra["cov_leanchecker"] = "ok: " + " ".join(mods)
 
 
+def replays_alone(pid, path):
+    """does the recorded case fail when a fresh process runs nothing but it?"""
+    import subprocess
+    p = subprocess.run([sys.executable, os.path.abspath(__file__), pid, "--replay", path], stdout=subprocess.DEVNULL,
+                       stderr=subprocess.DEVNULL, env=dict(os.environ, VERIF_NO_HISTORY="1"), timeout=600, cwd=VERIF)
+    return p.returncode == 1
+
+
+def with_history(pid, obj, path, before):
+    """A failure may depend on what the same process did earlier (a cache keyed by a record's name, a pattern
+    compiled for another class …).  When the failing case passes on its own in a fresh process, the replay is
+    given the shortest suffix (by doubling) of the cases that ran before it with which it fails again."""
+    t0 = time.time()
+    try:
+        if replays_alone(pid, path):
+            return path
+        k = 1
+        while time.time() - t0 < 300:
+            hist = before[-k:] if k < len(before) else list(before)
+            p2 = core.write_replay(pid, dict(obj, history=hist, history_note="the case fails only after the listed "
+                                             "cases have run in the same process (it passes on its own)"))
+            if replays_alone(pid, p2):
+                os.remove(path)
+                return p2
+            os.remove(p2)
+            if k >= len(before):
+                break
+            k *= 2
+    except Exception:  # noqa
+        pass
+    obj = dict(obj, history_note="the case failed in the run but passes on its own in a fresh process, and no "
+                                 "suffix of the run's earlier cases made it fail again there")
+    os.remove(path)
+    return core.write_replay(pid, obj)
+
+
 def finish(prop, ctx, tie_broken_search_done):
     pid = ctx.pid
     lines = []
@@ -101,10 +137,13 @@ def finish(prop, ctx, tie_broken_search_done):
                 small, what, tries = shrink.shrink(prop, lambda: Ctx(pid, ctx.tier, ctx.seed, quiet=True), f["case"], f["what"])
             except Exception:  # noqa
                 small, what = f["case"], f["what"]
+        at = f.get("at", 0)
         f = {"what": what, "case": small, "key": f.get("key")}
-        path = core.write_replay(pid, {"property": pid, "kind": "oracle", "what": f["what"], "case": f["case"],
-                                       "seed": ctx.seed, "tier": ctx.tier, "others": len(ctx.failures) - 1,
-                                       "shrink_attempts": tries})
+        obj = {"property": pid, "kind": "oracle", "what": f["what"], "case": f["case"],
+               "seed": ctx.seed, "tier": ctx.tier, "others": len(ctx.failures) - 1, "shrink_attempts": tries}
+        path = core.write_replay(pid, obj)
+        if hasattr(prop, "check_case") and isinstance(small, dict) and not os.environ.get("VERIF_NO_HISTORY"):
+            path = with_history(pid, obj, path, ctx.history[:max(0, at - 1)])
         lines.append("VIOLATION property={} replay={}".format(pid, path))
         lines.append("  " + f["what"])
         violations = len(ctx.failures)
@@ -173,7 +212,13 @@ def main():
             print(json.dumps({k: v for k, v in obj.items() if k != "case"}, indent=1)[:3000])
             if obj.get("kind") == "oracle":
                 core.lake_build(["moclo-driver"])
-                prop.check_case(ctx, obj["case"])
+                for h in obj.get("history", []):
+                    try:
+                        q = Ctx(pid, a.tier, seed, quiet=True)
+                        q.guard(prop.check_case, h)
+                    except Exception:  # noqa
+                        pass
+                ctx.guard(prop.check_case, obj["case"])
                 ctx.correspond()
                 for f in ctx.failures:
                     print("FAILS on the implementation:", f["what"])
